@@ -243,17 +243,21 @@ CHECKS = {
         "level": "exploration",
         "technique": "rapid property-based testing against a first-bad-block / wound-tiling reference model over generated contents and write slicings",
         "level_text": ("1-3 files per pool (sizes around block multiples, empty) x written content (equal, flipped in a set of blocks, truncated, "
-                       "block-aligned prefix, extended, unrelated) x write slicing (1..50, 1..3 blocks, boundary-straddling, bytewise) x mode. "
+                       "block-aligned prefix, extended, unrelated, one block dropped or doubled so that later blocks equal a neighbouring signed block) x write slicing (1..50, 1..3 blocks, boundary-straddling, bytewise) x mode. "
                        "Error mode: failure iff the model finds a first bad block b; the failing call is the one completing b; the inner pool "
                        "received exactly written[:b*64KiB] (everything when none). Wound modes (plain and with the aggregate filter): markers in "
-                       "offset order, tiling [0, min(written, signed)) on the signed block grid without gaps, FILE wounds exactly on differing blocks."),
+                       "offset order, tiling [0, min(written, signed)) on the signed block grid without gaps, FILE wounds exactly on differing blocks. "
+                       "Second stage: the pool driven by its real caller - a generated patch applied through a pool bowl over a ValidatingPool "
+                       "with the new build's signature, old build optionally damaged: whatever reaches the underlying pool must be the signed "
+                       "content or a block-aligned prefix of it; undamaged => nil and complete."),
         "level_note": "wounds emitted for blocks beyond the signed length are outside the statement and ignored by the tiling oracle.",
         "rule": ("rapid draws (files, written variants, slicings, mode). Non-trivial: a write that straddles a block boundary together with a bad "
                  "block that is not the first (error mode), or a differing block that is not the first (wound modes). Distinct: SHA-1 of the spec."),
         "assumptions": [],
         "required_classes": {"quick": ["mode:error", "mode:wounds", "mode:aggregate", "bad-block:not-first", "bad-block:beyond-signed-count", "write:straddles-block-boundary"],
                              "thorough": ["mode:error", "mode:wounds", "mode:aggregate", "bad-block:not-first", "bad-block:beyond-signed-count", "write:straddles-block-boundary"]},
-        "stages": [rapid("validatingpool", "TestProp", 48000, 400000, qs=16, ts=16, qt=600, tt=5400)],
+        "stages": [rapid("validatingpool", "TestProp", 48000, 400000, qs=16, ts=16, qt=600, tt=5400),
+                   rapid("viapatcher", "TestViaPatcher", 4800, 64000, qs=16, ts=16, qt=600, tt=5400)],
     },
     "C13": {
         "title": "Messages survive any compression setting; reader checkpoints resume exactly",
